@@ -61,6 +61,7 @@ type c12Honest struct {
 	ssid   []byte
 	e      *c12Chal
 	eValid bool
+	layout string // which inputs reproduce the challenge ("as documented" normally)
 	err    error
 }
 
@@ -90,10 +91,10 @@ func c12Build(env *c12Env, in c12Inst) *c12Honest {
 		return h
 	}
 	h.tr = tr
-	if sys.chal != nil {
+	if sys.chal != nil || sys.hashIn != nil {
 		_, pan := c12Recover(func() bool {
-			h.e = sys.chal(tr)
-			h.eValid = h.e != nil && (h.e.E != nil || h.e.Bits != nil) && c12Own(tr, h.e)
+			h.e, h.layout = c12FindChallenge(tr)
+			h.eValid = h.e != nil
 			return true
 		})
 		if pan != "" {
@@ -568,6 +569,7 @@ func C12(ctx *core.Ctx) error {
 	}
 	byKey := map[string]*c12Honest{}
 	eInvalid := []string{}
+	layouts := map[string]string{}
 	for _, h := range honest {
 		if h.err != nil {
 			wg.Wait()
@@ -575,8 +577,11 @@ func C12(ctx *core.Ctx) error {
 			return core.Inconcl("honest proof %s: %v", h.inst.key(), h.err)
 		}
 		byKey[fmt.Sprintf("%s#%d", h.inst.key(), h.inst.Seed)] = h
-		if h.tr.sys.chal != nil && !h.eValid {
+		if (h.tr.sys.chal != nil || h.tr.sys.hashIn != nil) && !h.eValid {
 			eInvalid = append(eInvalid, h.inst.key())
+		}
+		if h.eValid && h.layout != "as documented" && h.layout != "read off the equations" {
+			layouts[h.inst.Sys] = h.layout
 		}
 	}
 	genWall := time.Since(t0).Seconds()
@@ -670,9 +675,6 @@ func C12(ctx *core.Ctx) error {
 	}
 	sort.Strings(drift)
 	drift = c12Uniq(drift)
-	for _, d := range drift {
-		ctx.Note("drift: %s", d)
-	}
 	if len(binding) > 0 {
 		sort.Strings(binding)
 		return core.Inconcl("model and harness disagree on %d shift rows, e.g. %s", len(binding), binding[0])
@@ -703,9 +705,11 @@ func C12(ctx *core.Ctx) error {
 	cov.Set("cases_by_system", perSys)
 	cov.Set("rows_not_buildable", skips)
 	cov.Set("equivalent_replacements_code_verdict", equiv)
+	cov.Set("equivalent_replacements_model_differs", drift)
 	cov.Set("shifts_valid_under_old_challenge", fmt.Sprintf("%d of %d", shiftsValid, shiftsTotal))
 	cov.Set("self_test_sabotaged_shifts_noticed", fmt.Sprintf("%d of %d", selfOK, selfRan))
 	cov.Set("tlc", map[string]any{"distinct": model.Res.Distinct, "generated": model.Res.Generated, "wall_s": model.Res.Wall, "big": ctx.Thorough(), "invariants": c12Invs})
+	cov.Set("challenge_inputs_differing_from_the_documented_list", layouts)
 	cov.Set("exhaustive", false)
 	return ctx.WriteEvidence("model_checking",
 		"one case = one transformed copy of an honest real-size proof handed to the library's Verify: (instance = system, curve/orientation, parameter sets of prover and verifier, party index) x "+
